@@ -287,6 +287,17 @@ Proof.
 Qed.
 Print Assumptions c04_once.
 
+(* Every request kind of the client API completes through the same mechanism, whatever the size of
+   its arguments or of its reply (the model has no size bound; the harness sends universe names of
+   up to 15000 characters, ConfigureDevice payloads of up to 30000 bytes and list replies for 400
+   universes after small traffic on the same connection): the service's reply to a request carries
+   exactly that request's id (streamed frames and acks of pushes get none), so c04_once applies to
+   DMX sends, fetches, registrations, merge mode, names, info and the ten opaque kinds alike. *)
+Theorem c04_reply_id : forall st c r,
+  match snd (handle_req st c r) with Some m => rs m | None => [] end = rq r.
+Proof. exact reply_carries_id. Qed.
+Print Assumptions c04_reply_id.
+
 Example c04_once_nonvacuous :
   let st := run (init_state 2) [OReg 0 1 true; OFetch 0 1; OSrv 0; OSrv 0; OCli 0; OCli 0] in
   k_closed (st_cl st 0) = false /\ k_c2s (st_cl st 0) = [] /\ k_s2c (st_cl st 0) = [] /\
